@@ -5,6 +5,7 @@ import (
 	"math/rand/v2"
 	"sort"
 	"strconv"
+	"strings"
 
 	"github.com/hattya/go.sh/ast"
 	"github.com/hattya/go.sh/interp"
@@ -293,6 +294,10 @@ func c11Emit(c *core.Ctx, e *ra.Expr, st map[string]string, kind string, r *rand
 			cs.Via, cs.Src = "expand", s
 		}
 	}
+	if c.Index()%10 == 4 {
+		// through Expand with ordinary spacing: tokens that are apart stay apart ("- -x" is not "--x")
+		cs.Via, cs.Src = "expand", strings.NewReplacer("\n", " ", "\t", " ").Replace(ra.Render(toks, r, true))
+	}
 	if cs.Via == "eval" {
 		cs.Src = ra.Render(toks, r, c.Index()%3 == 0)
 	}
@@ -518,6 +523,9 @@ func c11Gen(c *core.Ctx) {
 			if s := ra.RenderSafe(e); s != "" {
 				cs.Via, cs.Src = "expand", s
 			}
+		}
+		if i%10 == 4 {
+			cs.Via, cs.Src = "expand", strings.NewReplacer("\n", " ", "\t", " ").Replace(ra.Render(ra.Tokens(e), r, true))
 		}
 		if cs.Via == "eval" {
 			cs.Src = ra.Render(ra.Tokens(e), r, i%3 == 0)
